@@ -38,9 +38,24 @@ def _jobs(tier, seed):
             tconst = {t: "kN" for t in "abc" if t not in tact and r.random() < 0.4}
         if i % 3 == 1:
             # built-in actions named in the grammar (@pass_inner ...) on rules without named matches (pass_single: no empty alternative)
+            # A rule that is the base of a repetition gets no built-in that can return None (pass_none; pass_inner / pass_single over an
+            # optional element): the collect actions drop None elements after the first (leniency rule of DESIGN 5, as strip_none_repetitions)
+            rep_bases = set()
+
+            def bases(alts_):
+                for a_ in alts_:
+                    for it_ in a_:
+                        if it_.get("kind") == "grp":
+                            bases(it_["alts"])
+                        elif it_["mult"] in ("+", "*"):
+                            rep_bases.add(it_["sym"])
+            for _n, alts_ in rules:
+                bases(alts_)
             for name, alts in rules[1:]:
                 if r.random() < 0.6 and not any(it.get("name") for alt in alts for it in alt):
                     opts = ["pass_none", "pass_nochange", "pass_empty", "pass_inner"] + (["pass_single"] if all(len(a) >= 1 for a in alts) else [])
+                    if name in rep_bases:
+                        opts = ["pass_nochange", "pass_empty"]
                     kinds[name] = r.choice(opts)
         # a rule written in two pieces with another rule in between (alternative numbering must follow the grammar order)
         # (not for rules with named matches: pieces with and without assignments are an undocumented combination)
